@@ -203,11 +203,22 @@ def rule_zero_after_report(ctx, rep):
         if const == 0:
             ok = True
         else:
-            tested = any(
-                any(isinstance(c, ast.Call) and last_attr(c.func) == "write_report" for c in ast.walk(e))
-                or any(isinstance(r.expand(nm), ast.Call) and last_attr(r.expand(nm).func) == "write_report" for nm in ast.walk(e) if isinstance(nm, ast.Name))
-                for _, e in fact_exprs(ex.state.must)
-            )
+            from ..logic import consistent_assignments
+
+            def atom(e):
+                if isinstance(e, (ast.BoolOp, ast.NamedExpr)) or (isinstance(e, ast.UnaryOp) and isinstance(e.op, ast.Not)):
+                    return None
+                for nm in ast.walk(e):
+                    if isinstance(nm, ast.Call) and last_attr(nm.func) == "write_report":
+                        return "WR"
+                    if isinstance(nm, ast.Name):
+                        x = r.expand(nm)
+                        if isinstance(x, ast.Call) and last_attr(x.func) == "write_report":
+                            return "WR"
+                return None
+
+            # the facts on this path must pin down the outcome of a test on the write_report result
+            tested = len(consistent_assignments(ex.state.must, atom, ["WR"])) == 1
             forwarded = v is not None and isinstance(r.expand(v), ast.Call) and last_attr(r.expand(v).func) == "write_report"
             ok = tested or forwarded
         rep.check("R-ZERO-AFTER-REPORT", run.qname, run.loc(ex.node), ok, f"return {unparse(v) if v is not None else 'None'}",
